@@ -45,8 +45,12 @@ func (s *cliSession) MsgRecv(m srpc.Message) error {
 	if err != nil {
 		return err
 	}
-	*(m.(*signaling.SessionResponse)) = *r //nolint
-	return nil
+	// as an srpc stream does: the packet is decoded into the message the caller passed (no reset in between)
+	b, err := r.MarshalVT()
+	if err != nil {
+		return err
+	}
+	return m.(*signaling.SessionResponse).UnmarshalVT(b)
 }
 func (s *cliSession) CloseSend() error { return nil }
 func (s *cliSession) Close() error {
@@ -202,5 +206,29 @@ func (a *app) count() int {
 
 // newClient builds a real signaling client for key index k over the given relay.
 func newClient(k int, relay signaling.SRPCSignalingClient) (*signaling_rpc_client.Client, error) {
-	return signaling_rpc_client.NewClient(quietLog, relay, gen.Key(k), fastBackoff())
+	return signaling_rpc_client.NewClient(quietLog, viaStubs(relay), gen.Key(k), fastBackoff())
+}
+
+// viaStubs puts the generated client stubs (signaling_srpc.pb.go) between the client and a harness relay: the harness
+// relay's stream objects serve as the srpc.Stream underneath the generated SRPCSignaling_*Client wrappers, as the
+// stream of a real srpc client would.
+func viaStubs(inner signaling.SRPCSignalingClient) signaling.SRPCSignalingClient {
+	return signaling.NewSRPCSignalingClient(&stubClient{inner: inner})
+}
+
+type stubClient struct{ inner signaling.SRPCSignalingClient }
+
+func (c *stubClient) ExecCall(ctx context.Context, service, method string, in, out srpc.Message) error {
+	return errors.New("verif: no unary calls")
+}
+
+func (c *stubClient) NewStream(ctx context.Context, service, method string, firstMsg srpc.Message) (srpc.Stream, error) {
+	switch method {
+	case "Session":
+		return c.inner.Session(ctx)
+	case "Listen":
+		req, _ := firstMsg.(*signaling.ListenRequest)
+		return c.inner.Listen(ctx, req)
+	}
+	return nil, errors.New("verif: unknown method " + method)
 }
